@@ -54,6 +54,8 @@ InvMember      == RoutesToMember(Codes)
 InvMod         == ModRouting(Codes)
 InvSeqForm     == /\ SortedHintOK(u, SortedAll)
                   /\ \A c \in Codes : LookupSeq(u, RingSeq(u, SortedAll, Members), c, Members) = Lookup(u, c, Members)
+                  /\ \A c \in Codes : /\ AcceptSeq(u, RingSeq(u, SortedAll, Members), c, Members) = Accept(u, c, Members)
+                                       /\ Lookup(u, c, Members) \in Accept(u, c, Members)
 InvPure        == list = <<>> => PureRemovalMinimal(u, Codes) /\ PureAdditionMinimal(u, Codes)
 \* ---- action properties
 PropDeterminism == Determinism(Codes)
